@@ -26,7 +26,7 @@ func init() {
 		Explain: "Decides structural necessary conditions of the laws: (V) in URLEscape every loop cycle that leaves bytes in place (the copy mark does not move) advances by a constant number of bytes, and each of those bytes has been tested on that path by predicates that — evaluated here for all 256 byte values from the source's own tables and predicate bodies — admit only unreserved ASCII, '%' followed by two hex digits, or bytes that cannot start a UTF-8 sequence; every other cycle moves the copy mark and writes only the pending verbatim range, constant escapes or url.QueryEscape output: so the output has no space, control, quote or angle byte, every kept '%' is a valid triple, and valid UTF-8 comes out as ASCII; (X) Extend/ExtendString store only exclusively owned bucket slices into the derived filter, and Add appends only to a bucket of its own receiver; (T) the pass-through table, the UTF-8 length table and the HTML escape table have exactly the required classes and are never written; (R) every code point decoded from a numeric reference passes the validator (0 and invalid code points become U+FFFD) before it is encoded; (W,B) no util function writes into its argument (= C12-W/B); (E) EscapeHTML replaces every byte that has a table entry (= C03-E). Not decided: idempotence of URLEscape, decoding back to the input, UTF-8 validity of resolver output in general, case folding and whitespace collapsing, set semantics of BytesFilter beyond aliasing.",
 		Trusted: []string{"url.QueryEscape emits only unreserved ASCII, '+' and %XX", "utf8.ValidRune"},
 		Assumes: []string{"none beyond Go semantics"},
-		Rules: []func(*World, *Report){ruleVerbatimBytesSafe, ruleFilterNoAliasing, ruleUtilTables, ruleEscapeTable, ruleValidRune,
+		Rules: []func(*World, *Report){ruleVerbatimBytesSafe, ruleFilterNoAliasing, ruleFilterDerivationComplete, ruleWideGuards, ruleUtilTables, ruleEscapeTable, ruleValidRune,
 			ruleByteWriteSites, ruleCopyOnWrite, ruleSanitiserLoops},
 	})
 }
@@ -882,4 +882,128 @@ func ruleValidRune(w *World, r *Report) {
 	}
 	r.Expect("encodings of parsed code points", n, 2)
 	_ = sort.Strings
+}
+
+// ---- C19-S: a derived filter carries over everything membership depends on -----------------------------------
+
+// fieldRootedAt: addr is FieldAddr(obj, F) or an element address reached through a load of it; returns F.
+func fieldRootedAt(addr ssa.Value, isObj func(ssa.Value) bool) *types.Var {
+	for depth := 0; depth < 6; depth++ {
+		switch x := addr.(type) {
+		case *ssa.FieldAddr:
+			if isObj(x.X) {
+				_, f := fieldOfAddr(x)
+				return f
+			}
+			addr = x.X
+		case *ssa.IndexAddr:
+			addr = x.X
+		case *ssa.UnOp:
+			if x.Op != token.MUL {
+				return nil
+			}
+			addr = x.X
+		default:
+			return nil
+		}
+	}
+	return nil
+}
+
+func ruleFilterDerivationComplete(w *World, r *Report) {
+	r.Rule("C19-S", "For every module type T implementing util.BytesFilter: every field of T that the membership test Contains (and the same-receiver methods it calls) reads is carried over by every deriving method (a method of T other than Add/Contains that returns a BytesFilter built from the receiver, i.e. Extend and ExtendString): the method stores into that field of the object it returns (or into its elements). A field that only Add maintains is then missing whatever the parent had accumulated, and keys of the parent are reported absent in the derived filter. The deriving methods are also cross-checked against each other (siblings carry the same set).")
+	it := w.Iface("util", "BytesFilter")
+	nDeriv := 0
+	for _, t := range w.Implementers(it) {
+		st, ok := t.Underlying().(*types.Struct)
+		if !ok {
+			continue
+		}
+		_ = st
+		// fields read by Contains (transitively through same-receiver calls)
+		reads := map[*types.Var]bool{}
+		seen := map[*ssa.Function]bool{}
+		var collect func(fn *ssa.Function)
+		collect = func(fn *ssa.Function) {
+			if fn == nil || seen[fn] || len(fn.Params) == 0 {
+				return
+			}
+			seen[fn] = true
+			recv := fn.Params[0]
+			for _, b := range fn.Blocks {
+				for _, ins := range b.Instrs {
+					switch x := ins.(type) {
+					case *ssa.FieldAddr:
+						if x.X == ssa.Value(recv) {
+							_, f := fieldOfAddr(x)
+							reads[f] = true
+						}
+					case ssa.CallInstruction:
+						if cal := x.Common().StaticCallee(); cal != nil && len(x.Common().Args) > 0 && x.Common().Args[0] == ssa.Value(recv) && cal.Signature.Recv() != nil {
+							collect(cal)
+						}
+					}
+				}
+			}
+		}
+		contains := w.MethodOf(t, "Contains")
+		if contains == nil {
+			r.Unknown(typeShort(t)+": Contains", "", "method not found")
+			continue
+		}
+		collect(contains)
+		carriedBy := map[string]map[*types.Var]bool{}
+		for _, m := range w.methodsOfType(t) {
+			if len(m.Params) == 0 || m == contains || m.Signature.Results().Len() != 1 {
+				continue
+			}
+			if !types.Identical(m.Signature.Results().At(0).Type(), w.Obj("util", "BytesFilter").Type()) {
+				continue
+			}
+			carried := map[*types.Var]bool{}
+			seenC := map[*ssa.Function]bool{}
+			var carry func(fn *ssa.Function)
+			carry = func(fn *ssa.Function) { // fn and the same-receiver helpers it calls (a shared clone helper)
+				if fn == nil || seenC[fn] || len(fn.Params) == 0 || len(seenC) > 8 {
+					return
+				}
+				seenC[fn] = true
+				recv := fn.Params[0]
+				isNew := func(v ssa.Value) bool {
+					return v != ssa.Value(recv) && namedOf(v.Type()) == t
+				}
+				for _, b := range fn.Blocks {
+					for _, ins := range b.Instrs {
+						switch x := ins.(type) {
+						case *ssa.Store:
+							if f := fieldRootedAt(x.Addr, isNew); f != nil {
+								carried[f] = true
+							}
+						case ssa.CallInstruction:
+							if cal := x.Common().StaticCallee(); cal != nil && cal != contains && cal.Name() != "Add" && len(x.Common().Args) > 0 && x.Common().Args[0] == ssa.Value(recv) && cal.Signature.Recv() != nil {
+								carry(cal)
+							}
+						}
+					}
+				}
+			}
+			carry(m)
+			nDeriv++
+			carriedBy[m.Name()] = carried
+			key := w.FnKey(m) + ": carries every field Contains reads"
+			var missing []string
+			for f := range reads {
+				if !carried[f] {
+					missing = append(missing, f.Name())
+				}
+			}
+			sort.Strings(missing)
+			if len(missing) == 0 {
+				r.OK(key, w.FnPos(m), fmt.Sprintf("%d field(s) read by the membership test, all stored into the derived filter", len(reads)))
+			} else {
+				r.Bad(key, w.FnPos(m), fmt.Sprintf("the membership test reads %s, which this method never stores into the filter it returns: keys inherited from the parent can be reported absent", strings.Join(missing, ", ")))
+			}
+		}
+	}
+	r.Expect("deriving methods of BytesFilter implementations", nDeriv, 2)
 }
